@@ -2,8 +2,9 @@
 EXTENDS Integers, Sequences, FiniteSets, TLC, Json, IOUtils
 CONSTANTS WrapFix, Epoch
 Trace == ndJsonDeserialize(IOEnv.TRACE_FILE)
-VARIABLES l, number, validators, pending, recents, cons, last
-Vals == {1, 2, 3, 4}
+VARIABLES l, number, validators, pending, recents, cons, last,
+          sealed    \* ground truth kept by the trace itself: sealed[n] = sealer of the accepted header n (not the client's own records)
+Vals == {1, 2, 3, 4, 5, 6, 7}
 InitNumber == 0
 InitSet == {}
 InitSigner == 0
@@ -13,7 +14,7 @@ SetOf(s) == {s[i] : i \in DOMAIN s}
 ln(k) == Trace[k]
 FnOf(list) == LET S == SetOf(list) IN [x \in {e[1] : e \in S} |-> (CHOOSE e \in S : e[1] = x)[2]]
 Hd(a) == [number |-> a.number, parentOK |-> a.parentOK, signer |-> a.signer, coinbaseOK |-> a.coinbaseOK, diff |-> a.diff, extra |-> SetOf(a.extra), structOK |-> a.structOK]
-TInit == l = 0 /\ number = 0 /\ validators = {} /\ pending = {} /\ recents = <<>> /\ cons = {} /\ last = [act |-> "None", res |-> "ok"]
+TInit == l = 0 /\ number = 0 /\ validators = {} /\ pending = {} /\ recents = <<>> /\ cons = {} /\ last = [act |-> "None", res |-> "ok"] /\ sealed = <<>>
 Report(k, name, holds) == holds \/ PrintT(<<"VIOL", k, name>>)
 IsStep(k) == ln(k).ev # "Reset"
 Judge(k) ==
@@ -22,6 +23,8 @@ Judge(k) ==
      LET hd == Hd(ln(k).args.hd)  ok == ln(k).res = "ok" IN
      /\ Report(k, "C09.AcceptedIsChild", ok => (hd.number = number + 1 /\ hd.parentOK /\ hd.structOK /\ ((hd.number % Epoch # 0) => hd.extra = {})))
      /\ Report(k, "C09.SignerEligible", ok => Eligible(hd))
+     (* the same clause against what really happened: the sealer sealed none of the last floor(N/2) accepted blocks *)
+     /\ Report(k, "C09.NotARecentSealer", ok => hd.signer \notin { sealed[m] : m \in {x \in DOMAIN sealed : x >= hd.number - (Cardinality(validators) \div 2) /\ x < hd.number} })
      /\ Report(k, "C09.SetChangesOnlyAtOffset", validators' # validators => (number' % Epoch = Cardinality(validators) \div 2 /\ validators' = pending'))
      /\ Report(k, "C09.PendingOnlyAtEpoch", pending' # pending => (ok /\ number' % Epoch = 0 /\ pending' = hd.extra))
      /\ Report(k, "C09.ConsIsRoot", ok => (cons' = cons \cup {hd.number} /\ number' = hd.number))
@@ -33,6 +36,8 @@ TNext == LET k == l + 1 IN
   /\ number' = ln(k).st.number /\ validators' = SetOf(ln(k).st.validators) /\ pending' = SetOf(ln(k).st.pending)
   /\ recents' = FnOf(ln(k).st.recents) /\ cons' = SetOf(ln(k).st.cons)
   /\ last' = [act |-> ln(k).ev, res |-> ln(k).res]
+  /\ sealed' = IF ln(k).ev = "Reset" THEN (ln(k).args.number :> ln(k).args.signer)
+               ELSE IF ln(k).res = "ok" THEN (ln(k).args.hd.number :> ln(k).args.hd.signer) @@ sealed ELSE sealed
   /\ Judge(k) /\ Conform(k)
-TSpec == TInit /\ [][TNext]_<<l, vars>>
+TSpec == TInit /\ [][TNext]_<<l, vars, sealed>>
 =============================================================================
